@@ -349,6 +349,28 @@ pub fn record_text(opts: &Opts) -> i32 {
         cases.push(c);
         tried += 1;
     }
+    // near misses of the two accepted shapes ("e2e4", "e2-e4"): more separators, separators elsewhere,
+    // trailing or leading bytes, a promotion letter, doubled squares - strings of six bytes and more included
+    for _ in 0..opts.num("random", 2000) / 40 + 20 {
+        let f = sq(rng.gen_range(0..64)).to_string();
+        let t = sq(rng.gen_range(0..64)).to_string();
+        for text in [format!("{f}--{t}"), format!("{f}---{t}"), format!("{f}-{t}-"), format!("-{f}{t}"), format!("-{f}-{t}"), format!("{f}{t}q"),
+                     format!("{f}-{t}q"), format!("{f} {t}"), format!("{f}-{t} "), format!("{f}{f}{t}"), format!("{f}-{f}-{t}"), format!("{f}{t}{t}"),
+                     format!("{f}-{t}"), format!("{f}{t}"), format!("{f}-"), format!("{f}--"), format!("{f}-{t}\0"), format!("{f}={t}")] {
+            let s = text.into_bytes();
+            let (mf, mt) = mv_pair(ChessMove::from_ascii_bytes(&s));
+            let one = |v: Option<u8>| v.map_or(-1i64, |x| x as i64);
+            let mut c = json!({"s": s, "pos": Pos::from_ascii_bytes(&s).map_or(-1, |p| p.to_u8() as i64), "from": mf, "to": mt,
+                "file": one(File::from_ascii_bytes(&s).map(|x| x.to_u8())), "rank": one(Rank::from_ascii_bytes(&s).map(|x| x.to_u8())),
+                "piece": one(Piece::from_ascii_bytes(&s).map(|x| x as u8)), "promo": one(PromotionPiece::from_ascii_bytes(&s).map(|x| x as u8))});
+            if let Ok(st) = std::str::from_utf8(&s) {
+                let agree = st.parse::<ChessMove>().ok() == ChessMove::from_ascii_bytes(&s) && st.parse::<Pos>().ok() == Pos::from_ascii_bytes(&s);
+                c["str_agrees"] = json!(agree);
+            }
+            cases.push(c);
+            tried += 1;
+        }
+    }
     writeln!(out, "{}", json!({"ev": "random_strings", "cases": cases})).unwrap();
     events += 1;
     // written forms and their round trips
